@@ -106,70 +106,72 @@ theorem renderingError_eq {env : Vm.Env} {vm : VmCtx} {c : Chunk} {r : SpanRange
 /-! ### runs of the interpreter loop -/
 
 section
-variable (rec : VmCtx → Chunk → State → RunRes) (env : Vm.Env) (vm : VmCtx) (c : Chunk)
+variable (env : Vm.Env) (vm : VmCtx) (c : Chunk)
 
-/-- the loop goes from `(pc, st)` to `(pc', st')` executing the instructions at `tr` -/
+/-- the loop goes from `(pc, st)` to `(pc', st')` executing the instructions at `tr` — whatever
+the nested interpreter `rec` is (no instruction on the way calls it) -/
 inductive Run : Nat → State → List Nat → Nat → State → Prop
   | nil (pc : Nat) (st : State) : Run pc st [] pc st
   | cons {pc : Nat} {st : State} {e : VEntry} {pc1 : Nat} {st1 : State} {tr : List Nat} {pc' : Nat}
-      {st' : State} (hc : c.code[pc]? = some e) (hs : step rec env vm c e pc st = .next pc1 st1)
+      {st' : State} (hc : c.code[pc]? = some e)
+      (hs : ∀ rec, step rec env vm c e pc st = .next pc1 st1)
       (h : Run pc1 st1 tr pc' st') : Run pc st (pc :: tr) pc' st'
 
 /-- the loop executes the instructions at `tr`; the last one returns the error `re` -/
 inductive Fails : Nat → State → List Nat → RErr → Prop
   | here {pc : Nat} {st : State} {e : VEntry} {re : RErr} (hc : c.code[pc]? = some e)
-      (hs : step rec env vm c e pc st = .err re) : Fails pc st [pc] re
+      (hs : ∀ rec, step rec env vm c e pc st = .err re) : Fails pc st [pc] re
   | cons {pc : Nat} {st : State} {e : VEntry} {pc1 : Nat} {st1 : State} {tr : List Nat} {re : RErr}
-      (hc : c.code[pc]? = some e) (hs : step rec env vm c e pc st = .next pc1 st1)
+      (hc : c.code[pc]? = some e) (hs : ∀ rec, step rec env vm c e pc st = .next pc1 st1)
       (h : Fails pc1 st1 tr re) : Fails pc st (pc :: tr) re
 end
 
 section
-variable {rec : VmCtx → Chunk → State → RunRes} {env : Vm.Env} {vm : VmCtx} {c : Chunk}
+variable {env : Vm.Env} {vm : VmCtx} {c : Chunk}
 
 theorem Run.one {pc : Nat} {st : State} {e : VEntry} {pc1 : Nat} {st1 : State}
-    (hc : c.code[pc]? = some e) (hs : step rec env vm c e pc st = .next pc1 st1) :
-    Run rec env vm c pc st [pc] pc1 st1 := .cons hc hs (.nil _ _)
+    (hc : c.code[pc]? = some e) (hs : ∀ rec, step rec env vm c e pc st = .next pc1 st1) :
+    Run env vm c pc st [pc] pc1 st1 := .cons hc hs (.nil _ _)
 
 theorem Run.trans {pc : Nat} {st : State} {tr1 : List Nat} {pc1 : Nat} {st1 : State}
     {tr2 : List Nat} {pc2 : Nat} {st2 : State}
-    (h1 : Run rec env vm c pc st tr1 pc1 st1) (h2 : Run rec env vm c pc1 st1 tr2 pc2 st2) :
-    Run rec env vm c pc st (tr1 ++ tr2) pc2 st2 := by
+    (h1 : Run env vm c pc st tr1 pc1 st1) (h2 : Run env vm c pc1 st1 tr2 pc2 st2) :
+    Run env vm c pc st (tr1 ++ tr2) pc2 st2 := by
   induction h1 with
   | nil => exact h2
   | cons hc hs _ ih => exact .cons hc hs (ih h2)
 
 theorem Run.fails {pc : Nat} {st : State} {tr1 : List Nat} {pc1 : Nat} {st1 : State}
     {tr2 : List Nat} {re : RErr}
-    (h1 : Run rec env vm c pc st tr1 pc1 st1) (h2 : Fails rec env vm c pc1 st1 tr2 re) :
-    Fails rec env vm c pc st (tr1 ++ tr2) re := by
+    (h1 : Run env vm c pc st tr1 pc1 st1) (h2 : Fails env vm c pc1 st1 tr2 re) :
+    Fails env vm c pc st (tr1 ++ tr2) re := by
   induction h1 with
   | nil => exact h2
   | cons hc hs _ ih => exact .cons hc hs (ih h2)
 
 /-- a run as a statement about `runLoop`: `tr.length` units of step fuel are used up -/
 theorem Run.runLoop {pc : Nat} {st : State} {tr : List Nat} {pc' : Nat} {st' : State}
-    (h : Run rec env vm c pc st tr pc' st') (k : Nat) :
+    (h : Run env vm c pc st tr pc' st') (rec : VmCtx → Chunk → State → RunRes) (k : Nat) :
     runLoop rec env vm c (tr.length + k) pc st = runLoop rec env vm c k pc' st' := by
   induction h with
   | nil => simp
   | cons hc hs _ ih =>
-    simp only [List.length_cons, Nat.add_right_comm _ 1 k, Vm.runLoop, hc, hs]
+    simp only [List.length_cons, Nat.add_right_comm _ 1 k, Vm.runLoop, hc, hs rec]
     exact ih
 
 /-- a failing run as a statement about `runLoop`: any step fuel `≥ tr.length` gives the error -/
 theorem Fails.runLoop {pc : Nat} {st : State} {tr : List Nat} {re : RErr}
-    (h : Fails rec env vm c pc st tr re) (k : Nat) :
+    (h : Fails env vm c pc st tr re) (rec : VmCtx → Chunk → State → RunRes) (k : Nat) :
     runLoop rec env vm c (tr.length + k) pc st = .err re := by
   induction h with
   | here hc hs =>
-    simp only [List.length_cons, List.length_nil, Nat.zero_add, Nat.add_comm 1 k, Vm.runLoop, hc, hs]
+    simp only [List.length_cons, List.length_nil, Nat.zero_add, Nat.add_comm 1 k, Vm.runLoop, hc, hs rec]
   | cons hc hs _ ih =>
-    simp only [List.length_cons, Nat.add_right_comm _ 1 k, Vm.runLoop, hc, hs]
+    simp only [List.length_cons, Nat.add_right_comm _ 1 k, Vm.runLoop, hc, hs rec]
     exact ih
 
 theorem Fails.length_pos {pc : Nat} {st : State} {tr : List Nat} {re : RErr}
-    (h : Fails rec env vm c pc st tr re) : 0 < tr.length := by
+    (h : Fails env vm c pc st tr re) : 0 < tr.length := by
   cases h <;> simp
 
 end
@@ -203,5 +205,24 @@ theorem Within.disjoint {lo hi : Nat} {a : List Nat} (ha : Within lo hi a) {p : 
   intro hm
   have := ha p hm
   omega
+
+/-! ### the step-fuel bound
+
+Loop-free code is executed at most once per instruction: `lf = true → tr.length ≤ len` is carried
+through the simulation (`lf`: "this is the loop-free core").  `bnd` closes the arithmetic side
+goals, conditional or not. -/
+
+set_option hygiene false in
+macro "bnd" : tactic => `(tactic| first
+  | omega
+  | (intro hlf
+     try (have hb_ := hl hlf)
+     try (have hb0_ := hl0 hlf)
+     try (have hb1_ := hl1 hlf)
+     try (have hb2_ := hl2 hlf)
+     try (have hb3_ := hl3 hlf)
+     try (have hb4_ := hlen hlf)
+     try simp only [List.length_append, List.length_singleton, List.length_nil, List.length_cons]
+     omega))
 
 end Tera.Refine
